@@ -90,6 +90,26 @@ func runC11(e *Env) error {
 				Replay: map[string]any{"kind": "render", "templates": map[string]string{"main": form, "part": v2}, "main": "main", "first_part": v1, "got": res.Out, "want": ref.Out}})
 		}
 	}
+	// (s3) macros of the including template after an include whose template imports / defines macros of the same names
+	for _, childSrc := range []string{"{% from 'lib2' import field %}{{ field() }}", "{% from 'lib2' import field as other, other as field %}{{ field() }}", "{% import 'lib2' as field %}{{ field.field() }}",
+		"{% macro field() %}child-field{% endmacro %}{{ field() }}", "{% from 'lib2' import field %}{% include 'grand' %}"} {
+		for _, form := range []string{"{% include 'child' %}", "{% include 'child' with {'q': 1} %}", "{% for i in [1, 2] %}{% include 'child' %}{% endfor %}", "{% include 'child' only %}"} {
+			main := "{% macro field() %}main-field{% endmacro %}{% from 'lib3' import other %}{{ field() }}{{ other() }}|" + form + "|{{ field() }}{{ _self.field() }}{{ other() }}"
+			c := &Case{Templates: map[string]string{"main": main, "child": childSrc, "grand": "{{ field is defined ? 'g' : 'u' }}", "lib2": "{% macro field() %}lib-field{% endmacro %}{% macro other() %}lib-other{% endmacro %}",
+				"lib3": "{% macro other() %}main-other{% endmacro %}"}, Main: "main", Ctx: map[string]any{}, FailAt: -1}
+			im, _, _, err := compareCase(e, c, "render-model-c11", "correspondence on includes whose template imports macros")
+			if err != nil {
+				return err
+			}
+			r.Seen("macros-after-include:"+childSrc+form, true)
+			parts := strings.Split(im.Out, "|")
+			if im.Class != "" || len(parts) != 3 || parts[0] != "main-fieldmain-other" || parts[2] != "main-fieldmain-fieldmain-other" {
+				r.Violate(Violation{Key: "include-changes-includer-state", What: fmt.Sprintf("%s with the included template %q: the includer's macros render %q before and %q after (%s)", form, childSrc, parts[0], parts[len(parts)-1], im.Class),
+					Broken: "theorem C11_non_interference (macros; implementation-only oracle)", Replay: c.replay(im, Outcome{})})
+			}
+		}
+	}
+	relativeFailureOracle(e, "include-broken-template-forgiven", "theorem C11_ignore_missing (relative names; implementation-only oracle with a custom loader)")
 	// (s2) `ignore missing` forgives a template that does not exist — not one that a loader has and that does not parse
 	for _, form := range []string{"{% include 'broken' ignore missing %}", "{% include 'broken' %}", "{% include 'wrap' ignore missing %}"} {
 		res := guarded(func() (string, error) {
